@@ -53,7 +53,9 @@ CLAIMED = {
          "and `Err(e) => return` arms of the emitted program (DESIGN §1.3). Same assumptions as C05."),
    design="§3/C06"),
  "C08": dict(
-   text=("Partial claim — a thin slice: two of the documented rules, on the two functions that check them. Verus discharges, on the real "
+   text=("Partial claim — a thin slice: three of the documented rules, on the three functions that check them (the third — 'a singleton that depends "
+         "on a request-scoped type', ConstructibleDb::verify_lifecycle_of_singleton_dependencies — lives in the C04 unit, obligations tagged @C08, "
+         "and is stated over the functional spec `designated(..)` of the scope walk proved there). Verus discharges, on the real "
          "text of pavexc's cloneables_can_be_cloned ('clone-if-necessary on a type that is not Clone'; also: every configuration type must "
          "be Clone) and runtime_singletons_are_thread_safe ('a singleton needed at request time that is not Send + Sync'), with the trait "
          "oracle (assert_trait_is_implemented over rustdoc JSON) as an uninterpreted predicate and the diagnostic sink observed through a "
